@@ -613,6 +613,14 @@ def exotic_probe_texts() -> list[str]:
     base = ['a = { "x"{2} }', 'a = { "x"{1,3} }', 'a = { "x"{,2} }', 'a = { "x"{2,} }', 'a = { PEEK[1..2] }', 'a = { PEEK[-1..] }',
             "a = { '0'..'9' }", 'a1 = { b_2 }', 'a = { "\\x41" }', 'a = { "\\u{41}" }', '/// d 1\na = { b }']
     out = []
+    # letters whose upper / lower / folded forms have another length or leave the BMP plane's usual pairs, at the head and in
+    # the middle of literals inside choices the optimizer squashes (its order and class computations call ord(), upper(), lower())
+    odd = "\u00df\u0149\u01f0\ufb01\u0130\u01c5\u0390\u017f\u212a\u212b\u00b5\u1e9e\U00010400"
+    shapes = ["a = {{ 'a'..'z' | ^\"{L}x\" }}", "a = {{ ASCII_DIGIT | ^\"{L}x\" }}", "a = {{ \"q\" | ^\"{L}x\" | 'a'..'c' }}", "a = {{ ^\"{L}x\" | 'a'..'z' }}",
+              "a = {{ ^\"{L}\" | \"b\" }}", "a = {{ \"{L}\" | ^\"x{L}\" | 'a'..'b' }}", "WHITESPACE = _{{ \" \" | ^\"{L}x\" }}\na = {{ \"b\" ~ \"c\" }}",
+              "a = {{ '{L}'..'{L}' | ^\"{L}{L}\" }}", "a = {{ (\"b\" | ^\"{L}x\")* }}", "a = {{ !(\"b\" | ^\"{L}\") ~ ANY }}"]
+    for sh in shapes:
+        out += [sh.format(L=ch) for ch in odd]
     for t in base:
         for i, c in enumerate(t):
             if c in "0123456789":
